@@ -358,33 +358,65 @@ def check_trainer(model, R):
                             return b.get('prefix')
                         okp = bool(evs) and all(prefix_of(x) == 'val' for x in evs)
                         R.ob('C20.HISTORY', f.qualname, "evaluator called with prefix='val' (%d calls)" % len(evs), okp, 'validation metrics must carry the val_ prefix', f.loc)
-    # ---------------------------------------------------------------- record_metrics: one entry per key per call
-    rm = model.funcs.get(TR + '.fit.record_metrics')
-    if rm is None:
-        R.incomplete_at('C20.HISTORY', fit.qualname, 'record_metrics helper not found')
-    else:
-        d, mparam = rm.pos_params[0], rm.pos_params[1]
-        V1, V2 = A('v1'), A('v2')
-        for present in (True, False):
-            def dp(t, present=present):
-                if '.get(' in t or ' in ' in t or 'has' in t:
-                    return (present if ' not in ' not in t else not present)
-                if 'issubdtype' in t or 'isinstance' in t:
-                    return True
+    # ---------------------------------------------------------------- fit: the history after two concrete epochs (whatever helper / closure / inline form records it)
+    for has_val in (True, False):
+        tag = 'validation loader given' if has_val else 'no validation loader'
+        pe = _trainer_pe(model, fit, False)
+        base_hook = pe.call_hook
+        cnt = {'t': 0, 'v': 0}
+
+        def hook2(pe_, name, e, args, kw, env, func, depth, base_hook=base_hook, cnt=cnt):
+            t = pe_.calls[-1][0]
+            if t in ('self.__train', 'self._Trainer__train'):
+                cnt['t'] += 1
+                return [('loss', A('tl%d' % cnt['t'])), ('tm', A('tm%d' % cnt['t']))]
+            if t in ('self.__validate', 'self._Trainer__validate'):
+                cnt['v'] += 1
+                return [('val_loss', A('vl%d' % cnt['v'])), ('vm', A('vm%d' % cnt['v']))]
+            return base_hook(pe_, name, e, args, kw, env, func, depth)
+        pe.call_hook = hook2
+        pe.default_pred = lambda t: True if ('issubdtype' in t or 'isinstance' in t) else None
+        args = {p_: A(p_) for p_ in fit.pos_params[1:]}
+        args['epochs'] = 2
+        args['validation_loader'] = A('validation_loader') if has_val else None
+        args['on_train_epoch'] = None
+        args['on_validation_epoch'] = None
+        bad = []
+        try:
+            outs2 = pe.paths(fit, args, max_paths=64)
+        except Incomplete as u:
+            R.incomplete_at('C20.HISTORY', fit.qualname, str(u))
+            continue
+        n_paths = 0
+        for o in outs2:
+            if o.kind != 'return':
+                bad.append('path ends in %s' % o.kind)
+                continue
+            n_paths += 1
+            k0 = n_paths * 2 - 1
+            tl = [c for c in o.calls if c[0] in ('self.__train', 'self._Trainer__train')]
+            vl = [c for c in o.calls if c[0] in ('self.__validate', 'self._Trainer__validate')]
+            if not isinstance(o.value, dict):
+                bad.append('returned %r' % (o.value,))
+                continue
+            # the atoms handed out on this path, in call order
+            got = {k: [x.canon() if isinstance(x, P) else repr(x) for x in v] if isinstance(v, list) else repr(v) for k, v in o.value.items()}
+            def seq(prefix, calls):
                 return None
-            outs = PE(model, default_pred=dp, atoms_not_none=True).paths(rm, {d: A(d), mparam: [('k1', V1), ('k2', V2)]})
-            ok = len(outs) == 1 and outs[0].kind in ('fall', 'return')
-            if ok:
-                o = outs[0]
-                apps = [(c[0], c[1]) for c in o.calls if c[0].endswith('.append')]
-                sts = [(k, v) for k, v, st_ in o.stores]
-                if present:
-                    ok = sorted(a[0] for a in apps) == ["%s['k1'].append" % d, "%s['k2'].append" % d] and all(len(a[1]) == 1 for a in apps) and \
-                        {a[0]: a[1][0] for a in apps} == {"%s['k1'].append" % d: V1, "%s['k2'].append" % d: V2} and not sts
-                else:
-                    ok = not apps and sorted(k for k, v in sts) == ["%s['k1']" % d, "%s['k2']" % d] and dict(sts) == {"%s['k1']" % d: [V1], "%s['k2']" % d: [V2]}
-            R.ob('C20.HISTORY', rm.qualname, 'keys %s: one value per key per call' % ('already recorded' if present else 'new'), ok,
-                 'each recorded metric must add exactly one history entry (append to the existing list | create a one-element list)', rm.loc)
+            want_keys = ['loss', 'tm'] + (['val_loss', 'vm'] if has_val else [])
+            if sorted(got) != sorted(want_keys) or len(tl) != 2 or len(vl) != (2 if has_val else 0):
+                bad.append('history keys %s after 2 epochs (%d train / %d validation passes)' % (sorted(got), len(tl), len(vl)))
+                continue
+            for k_ in want_keys:
+                v = got[k_]
+                stem = {'loss': 'tl', 'tm': 'tm', 'val_loss': 'vl', 'vm': 'vm'}[k_]
+                if not (isinstance(v, list) and len(v) == 2 and all(isinstance(x, str) and x.startswith(stem) for x in v) and len(set(v)) == 2 and sorted(v, key=lambda x: int(x[2:])) == v):
+                    bad.append("history[%r] = %s after 2 epochs" % (k_, v))
+            hs = [(k, v) for k, v, st_ in o.stores if k == 'self.history']
+            if not (len(hs) == 1 and hs[0][1] is o.value):
+                bad.append('self.history bound %d time(s); the returned object is %s' % (len(hs), 'the recorded history' if hs and hs[0][1] is o.value else 'another object'))
+        R.ob('C20.HISTORY', fit.qualname, '[%s] history after 2 epochs: one entry per epoch for every metric, in epoch order; history = {} once, returned' % tag, not bad and n_paths > 0,
+             'every recorded metric must add exactly one history entry per epoch (append to the existing list | create a one-element list) and fit returns that history: %s' % bad[:2], fit.loc)
     # ---------------------------------------------------------------- fit: one __train per epoch, record_metrics calls, history bookkeeping
     for has_val in (True, False):
         tag = 'validation loader given' if has_val else 'no validation loader'
@@ -411,22 +443,13 @@ def check_trainer(model, R):
             recs = [x for x in seg if x[0] == 'record_metrics']
             if not (len(epoch) == 1 and len(trains) == 1 and len(trains[0][1]) == 1 and 'epochs' in trains[0][1][0] and _aname(trains[0][3][0]) == fit.pos_params[1]):
                 bad_step.append('__train calls %s' % [(x[0], x[1]) for x in trains])
-            want_recs = 2 if has_val else 1
-            okr = len(recs) == want_recs and all(len(x[1]) == 1 and (_aname(x[3][0]) == 'self.history' or isinstance(x[3][0], dict)) for x in recs) and len(vals) == (1 if has_val else 0)
-            if okr:
-                okr = isinstance(recs[0][3][1], list) and recs[0][3][1] and recs[0][3][1][0][0] == 'loss'
-                if has_val:
-                    okr = okr and isinstance(recs[1][3][1], list) and recs[1][3][1] and recs[1][3][1][0][0] == 'val_loss'
-            if not okr:
-                bad_hist.append('record_metrics calls %s' % [(x[1], [k for k, v in x[3][1]] if len(x[3]) > 1 and isinstance(x[3][1], list) else '?') for x in recs])
+            if len(vals) != (1 if has_val else 0):
+                bad_hist.append('validation passes per epoch: %d' % len(vals))
             # train mode at the start of every epoch (validation leaves the model in eval mode)
             ep_calls = [x[0] for x in seg if x[1] and 'epochs' in x[1][0]]
             if 'self.model.train' not in ep_calls or ('self.optimizer.zero_grad' in ep_calls and ep_calls.index('self.model.train') > ep_calls.index('self.optimizer.zero_grad')):
                 bad_mode.append('calls in the epoch: %s' % ep_calls[:6])
-            hs = [(k, v) for k, v, st_ in o.stores if k == 'self.history']
-            if not (len(hs) == 1 and isinstance(hs[0][1], dict) and (_aname(o.value) == 'self.history' or o.value is hs[0][1])):
-                bad_hist.append('self.history stores %s, returns %r' % (hs, o.value))
         R.ob('C20.STEP', fit.qualname, '[%s] __train(train_loader) once per epoch' % tag, not bad_step, 'updates = epochs x len(train_loader) needs exactly one unconditional __train(train_loader) per epoch: %s' % bad_step[:1], fit.loc)
         R.ob('C20.TRAINMODE', fit.qualname, '[%s] model.train() at the start of every epoch' % tag, not bad_mode, 'validation leaves the model in eval mode: each epoch must switch back: %s' % bad_mode[:1], fit.loc)
-        R.ob('C20.HISTORY', fit.qualname, '[%s] record_metrics(train) every epoch; record_metrics(val) iff validation_loader; history = {} once, returned' % tag, not bad_hist,
-             'history must get one entry per epoch for every metric and be returned: %s' % bad_hist[:1], fit.loc)
+        R.ob('C20.HISTORY', fit.qualname, '[%s] one validation pass per epoch iff a validation loader is given' % tag, not bad_hist,
+             'validation metrics are recorded once per epoch exactly when a validation loader is given: %s' % bad_hist[:1], fit.loc)
